@@ -4,7 +4,8 @@
 # exit 1: "VIOLATION property=<id> replay=<path>" printed
 # other : the harness itself failed (no verdict)
 set -uo pipefail
-cd /verif
+cd "$(dirname "$0")/.."
+VROOT=$(pwd)
 export GOFLAGS=-mod=mod GOPROXY=off GOSUMDB=off GOTOOLCHAIN=local
 export GIT_CONFIG_GLOBAL=/dev/null GIT_CONFIG_NOSYSTEM=1
 mode=plain
